@@ -92,8 +92,8 @@ PLANS["C14"] = {
 }
 
 PLANS["C16"] = {
-    "quick": [J("damage1", "c=1,s=1", 90), J("damagebulk1", "c=1,f=1", 60), J("damagebulk2", "c=1,f=1", 60), J("damagerel", "c=1,s=1", 40), J("damagerel2", "c=2", 60), J("damagefs", "c=1,s=1", 60)],
-    "thorough": [J("damage1", "c=1,s=2,p=1", 600), J("damage2", "c=1,f=1,s=1", 900), J("damagebulk1", "c=1,f=1,s=1", 300), J("damagebulk2", "c=1,f=1,s=1", 300), J("damagerel", "c=1,s=2,p=1", 300), J("damagerel2", "c=2,s=1,f=1", 600), J("damagefs", "c=2,s=1", 600)],
+    "quick": [J("damage1", "c=1,s=1", 90), J("damagebulk1", "c=1,f=1", 60), J("damagebulk2", "c=1,f=1", 60), J("damagerel", "c=1,s=1", 40), J("damagerel2", "c=2", 60), J("damagefill", "c=2", 60), J("damagefs", "c=1,s=1", 60)],
+    "thorough": [J("damage1", "c=1,s=2,p=1", 600), J("damage2", "c=1,f=1,s=1", 900), J("damagebulk1", "c=1,f=1,s=1", 300), J("damagebulk2", "c=1,f=1,s=1", 300), J("damagerel", "c=1,s=2,p=1", 300), J("damagerel2", "c=2,s=1,f=1", 600), J("damagefill", "c=2,s=1,p=1", 400), J("damagefs", "c=2,s=1", 600)],
 }
 
 PLANS["C19"] = {
